@@ -18,7 +18,10 @@ import specdiff
 
 THEOREM_MODULES = []
 REQUIRED_THEOREMS = []
-for _m, _t in (("C05Tables", ["infix_defined", "binary_prec_succ_ok"]), ("SitesInventory", ["sites_accounted_compile_time"]), ("C03", ["scan_total"])):
+for _m, _t in (("C05Tables", ["infix_defined", "binary_prec_succ_ok"]), ("SitesInventory", ["sites_accounted_compile_time"]), ("C03", ["scan_total"]),
+               ("SpecBase", ["scanAll_ends_with_eof", "scanAll_fuel_enough", "scanAll_lines_monotone", "scanAll_lines_bounded", "scanToken_progress",
+                             "compileWith_total", "compileWith_ok_iff", "compileWith_messages_located", "getRule_rules_total"]),
+               ("SpecTables", ["spec_rules_are_the_sources", "spec_token_kinds_are_the_sources"])):
     if os.path.exists(os.path.join(vlib.LEAN_DIR, "Yarel", "Props", _m + ".lean")):
         THEOREM_MODULES.append("Yarel.Props." + _m)
         REQUIRED_THEOREMS += _t
